@@ -508,6 +508,21 @@ def main(argv):
         for os_ in cfg.get("oracles", []):
             on = cfg.get("oracle_n_by", {}).get(os_, cfg.get("oracle_n", {})).get(tier, 4000 if tier == "quick" else 100000)
             of, ncases, oout = run_oracle(os_, seed, on, tier, tag, None)
+            # the oracles that drive real stacks measure wall-clock time (deadlines, "still blocked after …"): under
+            # load a single run can report what is only slowness. Like a stream disagreement, an oracle failure must
+            # come back when the same sample is run again (up to two more times) or it is recorded as unreproduced.
+            mine = [l for l in of if not (re.match(r"ORACLE-FAIL (C\d\d) ", l) and re.match(r"ORACLE-FAIL (C\d\d) ", l).group(1) != prop)]
+            if mine and ncases > 0 and os_ in TIMED_ORACLES:
+                again = set()
+                for _ in range(2):
+                    of2, _, _ = run_oracle(os_, seed, on, tier, tag, None)
+                    again |= {sig_class(l) for l in of2}
+                    if all(sig_class(l) in again for l in mine):
+                        break
+                gone = [l for l in mine if sig_class(l) not in again]
+                if gone:
+                    notes.setdefault("unreproduced_oracle_failures", []).extend(l[:200] for l in gone[:10])
+                    of = [l for l in of if l not in gone]
             oracle_stats.append({"oracle": os_, "cases": ncases, "fails": len(of)})
             if ncases == 0:
                 failures.append({"kind": "tie", "stream": os_, "signature": "oracle-error " + os_, "detail": oout[-2000:]})
@@ -565,6 +580,10 @@ def cleanup(tag):
                 os.remove(os.path.join(WORK, f))
             except OSError:
                 pass
+
+
+# oracles whose verdicts depend on wall-clock time
+TIMED_ORACLES = {"swarm", "secure", "hub", "ke", "ket", "kesw", "mux", "mbask"}
 
 
 def sig_class(sig):
